@@ -333,6 +333,14 @@ func (la *lockAnalysis) guardFor(v ssa.Value) (*guardEntry, string, bool) {
 		case *ssa.Extract:
 			direct = false
 			v = x.Tuple
+		case *ssa.Call:
+			// getters of generated structs: x.GetAfts() reaches into x
+			if cf := calleeFunc(x); cf != nil && strings.HasPrefix(cf.Name(), "Get") && len(x.Call.Args) >= 1 && !x.Call.IsInvoke() {
+				direct = false
+				v = x.Call.Args[0]
+			} else {
+				return nil, "", false
+			}
 		case *ssa.ChangeType:
 			v = x.X
 		case *ssa.Phi:
